@@ -15,6 +15,7 @@ type Expr interface{}
 
 type (
 	ELit   struct{ V string } // integer literal
+	EStr   struct{ S string } // string literal (strings are integer codes in the logic)
 	EBool  struct{ V bool }
 	ENil   struct{}
 	EIdent struct{ Name string }
@@ -157,6 +158,18 @@ func lex(s string) ([]tok, error) {
 			}
 			out = append(out, tok{"id", s[i:j]})
 			i = j
+			continue
+		}
+		if c == '"' {
+			j := i + 1
+			for j < len(s) && s[j] != '"' {
+				j++
+			}
+			if j >= len(s) {
+				return nil, fmt.Errorf("unterminated string in %q", s)
+			}
+			out = append(out, tok{"str", s[i+1 : j]})
+			i = j + 1
 			continue
 		}
 		if unicode.IsDigit(rune(c)) {
@@ -407,6 +420,8 @@ func (p *parser) primary() Expr {
 	switch t.k {
 	case "num":
 		return &ELit{t.s}
+	case "str":
+		return &EStr{t.s}
 	case "id":
 		switch t.s {
 		case "true":
